@@ -1,7 +1,7 @@
 (* C20 — No user input can crash a node or halt block production.
-   Statements only; proofs are in Proofs/TotalProofs.v, Proofs/PubSubProofs.v, Proofs/FilterSysProofs.v
-   (generic part: Proofs/ConcProofs.v). *)
-From Evm Require Import BaseFee TxPipe Total TotalProofs Conc ConcProofs PubSub PubSubProofs FilterSys FilterSysProofs CorrPubSub.
+   Statements only; proofs are in Proofs/TotalProofs.v, Proofs/TraceCfgProofs.v, Proofs/PubSubProofs.v,
+   Proofs/FilterSysProofs.v, Proofs/FilterApiProofs.v (generic part: Proofs/ConcProofs.v). *)
+From Evm Require Import BaseFee TxPipe Total TotalProofs TraceCfg TraceCfgProofs Conc ConcProofs PubSub PubSubProofs FilterSys FilterSysProofs FilterApi FilterApiProofs CorrPubSub.
 From Coq Require Import Relations.
 Open Scope Z_scope.
 
@@ -241,3 +241,92 @@ Proof. vm_compute. reflexivity. Qed.
 Theorem C20_filtersys_histories_are_runs : forall s o, fs_reach true s -> fs_reach true (fapply true s o).
 Proof. exact fapply_reach. Qed.
 Print Assumptions C20_filtersys_histories_are_runs.
+
+(* ---------------------------------------------------------------- 6. filter API (rpc/.../filters/api.go) *)
+
+(* the code of /repo (UninstallFilter looks the filter up and deletes it under ONE acquisition of filtersMu): for EVERY
+   interleaving of any number of eth_newFilter / eth_newBlockFilter / eth_newPendingTransactionFilter /
+   eth_getFilterChanges / eth_getFilterLogs / eth_uninstallFilter calls (split at every Lock / Unlock of filtersMu and
+   at every call into the EventSystem), timeoutLoop, the Unsubscribe goroutines, eventLoop's uninstall work, the
+   filters' consumer goroutines, timers firing, ticks and events at any time, for every filter cap: no step crashes --
+   no err channel closed twice, no wait on a drained timer under filtersMu, no Unlock of a mutex not held *)
+Theorem C20_filterapi_safe : forall cap s s', fa_reach false cap s -> fa_step false s s' -> err s' = None.
+Proof. exact fa_no_crash. Qed.
+Print Assumptions C20_filterapi_safe.
+
+(* no subscription is unsubscribed twice, and an installed filter's subscription has not been unsubscribed: this is the
+   assumption written into the guards of Model/FilterSys.v (section 5), discharged for the API layer *)
+Theorem C20_filterapi_unsubscribed_at_most_once : forall cap s f,
+  fa_reach false cap s -> (unsubscribes f s + cnt f (a_filters (dat s)) <= 1)%nat.
+Proof. exact fa_unsubscribed_at_most_once. Qed.
+Print Assumptions C20_filterapi_unsubscribed_at_most_once.
+
+Theorem C20_filterapi_close_err_target_open : forall cap s i f,
+  fa_reach false cap s -> nth_error (thr s) i = Some (AEL_cerr f) -> ~ In f (a_errclosed (dat s)).
+Proof. exact fa_close_err_target_open. Qed.
+Print Assumptions C20_filterapi_close_err_target_open.
+
+(* GetFilterChanges' `if !f.deadline.Stop() { <-f.deadline.C }` under filtersMu cannot block: timeoutLoop drains a timer
+   and deletes the filter in the same critical section *)
+Theorem C20_filterapi_installed_timer_not_drained : forall cap s f,
+  fa_reach false cap s -> In f (a_filters (dat s)) -> aget (a_timer (dat s)) f <> 2%nat.
+Proof. exact fa_installed_timer_not_drained. Qed.
+Print Assumptions C20_filterapi_installed_timer_not_drained.
+
+(* lock order filtersMu -> EventSystem locks: no cycle; and nothing blocks inside a critical section *)
+Theorem C20_filterapi_no_lock_cycle : forall cap s, fa_reach false cap s -> forall i, ~ clos_trans nat (fa_waits_for false s) i i.
+Proof. exact fa_no_wait_cycle. Qed.
+Print Assumptions C20_filterapi_no_lock_cycle.
+
+Theorem C20_filterapi_holder_progress : forall cap s j q m md,
+  fa_reach false cap s -> nth_error (thr s) j = Some q -> aholds q m = Some md ->
+  (exists s', fa_tstep false s j = Some s') \/ (exists k, fa_waits_for false s j k).
+Proof. exact fa_holder_progress. Qed.
+Print Assumptions C20_filterapi_holder_progress.
+
+(* the check-then-act variant (look-up under the lock, Unsubscribe, delete under a second acquisition): two overlapping
+   eth_uninstallFilter calls for one filter reach eventLoop twice -- close of closed channel *)
+Definition C20_filterapi_safe_check_then_act : Prop := forall s, fa_reach true 100 s -> err s = None.
+Theorem C20_filterapi_check_then_act_refuted : ~ C20_filterapi_safe_check_then_act.
+Proof.
+  intros H. destruct fa_variant_crashes as (s & Hr & He). specialize (H s Hr). congruence.
+Qed.
+Print Assumptions C20_filterapi_check_then_act_refuted.
+
+Theorem C20_filterapi_histories_are_runs : forall cap s ids o,
+  fa_reach false cap s -> fa_reach false cap (fst (fst (aapply false s ids o))).
+Proof. exact aapply_reach. Qed.
+Print Assumptions C20_filterapi_histories_are_runs.
+
+(* non-vacuity: filters are created, polled, uninstalled and expired in reachable states (uninstalling the filter whose
+   subscription installed the topic takes the other filters of the type along, as the code does), subscriptions do get
+   unsubscribed exactly once, and the same two overlapping calls that kill the variant are harmless here *)
+Example C20_filterapi_example :
+  map (fun x => (as_res x, as_filters x))
+      (arun false (fa_init 100) [] [ANew 1; ANew 1; AEvent 1 true; AChanges 1; AUninstall 0; AChanges 1; ANew 2; AExpire 2; AUninstall 2])
+  = [(1, [0]); (2, [1; 0]); (0, [1; 0]); (2, [1; 0]); (1, []); (0, []); (3, [2]); (1, []); (0, [])]%nat /\
+  (let s := fa_quiesce false (aspawn (aspawn (fa_quiesce false (aspawn (fa_init 100) (NF_lock 1))) (UF_lock 0)) (UF_lock 0)) in
+   (err s, a_errclosed (dat s), unsubscribes 0 s) = (None, [0%nat], 1%nat)).
+Proof. vm_compute. auto. Qed.
+
+(* ---------------------------------------------------------------- 7. the trace queries' watchdog goroutine *)
+
+(* x/evm/keeper/grpc_query.go traceTx: whatever `timeout` and `tracer` the request carries, the goroutine that calls
+   tracer.Stop after the deadline never sees a nil tracer (the tracer is built, and a failing tracers.New has returned,
+   before the goroutine is started) -- a panic there would be outside every recover boundary of section 1 *)
+Theorem C20_trace_watchdog_never_crashes : forall c, watchdog_crashes false c = false.
+Proof. exact watchdog_never_crashes. Qed.
+Print Assumptions C20_trace_watchdog_never_crashes.
+
+Theorem C20_trace_setup_error_means_no_goroutine : forall c code,
+  ts_err (trace_tx_setup false c) = Some code -> ts_goroutine (trace_tx_setup false c) = false.
+Proof. exact setup_error_means_no_goroutine. Qed.
+Print Assumptions C20_trace_setup_error_means_no_goroutine.
+
+(* the order is what the statement rests on: with the goroutine started before the tracer is built, an elapsed timeout
+   together with a tracer that does not build kills the process (and only elapsed timeouts can) *)
+Theorem C20_trace_watchdog_order_matters :
+  watchdog_crashes true (mkTraceCfg false ToElapsed TrInvalid) = true /\
+  (forall c, watchdog_crashes true c = true -> tc_timeout c = ToElapsed).
+Proof. split; [exact watchdog_reordered_crashes|exact watchdog_reordered_needs_elapsed]. Qed.
+Print Assumptions C20_trace_watchdog_order_matters.
